@@ -1,6 +1,7 @@
 /-
-  C06 (seventh part) — the FIRST clause of the property for FERMIONIC operands, and the abelian
-  first clause with both contractions in any mode.
+  C06 (seventh part) — the FIRST clause of the property for FERMIONIC operands (general: contracted
+  legs at any positions, in any order, no preliminary transposition), and the abelian first clause
+  with both contractions in any mode.
 
   Abelian:
   * `tensordot_fuse_contracted_commute_both_modes` — C06f's `tensordot_fuse_contracted_commute`
@@ -11,48 +12,53 @@
 
   Fermionic (`tensordot_fermionic`, `FermionicArray.fuse`; even and odd parity, pending signs,
   labels, any directions; weak guard `tdotAdmissibleCommonB`):
+  * `tensordot_fuse_contracted_commute_fermionic` — the public route from `a`, `b`: align
+    (`drop_misaligned_sectors`), `fuse` (either strategy, any `expand_empty`) the contracted legs
+    `xa` / `xb` of each operand (ARBITRARY distinct axes, any order; `fuse` transposes by
+    `before ++ group ++ after` itself), `tensordot_fermionic` over the single fused pair
+    `(min xa, min xb)` — against `tensordot_fermionic(a, b, (xa, xb))` (blockwise): same (label)
+    error, or both succeed with the same labels, charge, symmetry, kind, rank and the SAME ELEMENT at
+    every address of the free legs' table box (tables of the aligned operands; every stored sector
+    of the plain result lies there).
+  * `tensordot_fuse_contracted_commute_fermionic_any_mode` — the same with the contraction over the
+    original pairs in mode `m1` and the contraction of the fused operands in mode `m2` (each of
+    blockwise / fused / auto): every stored entry of the fused-route result is the element of the
+    plain result at that address.
+  * `fuse_contracted_aligned_fermionic` — the same one level down, for an aligned fermionic pair
+    (`TdotP.FCtxG`, spelled out by `fctxG_iff`; the operands after `dropMisaligned` are such a
+    pair: `aligned_fctxG`).
   * `fuse_signs_contraction_compatible` — THE SIGN IDENTITY ("fermionic fuse signs chosen to be
     contraction-compatible", fermionic_core.py:596-680): for every pair of sectors with equal
     contracted charges, the graded sign of the contraction over the original pairs (two Koszul
     signs, nesting sign `(-1)^(m(m-1)/2)`, `-1` per odd ket-then-bra pair; `gradedSign`, C03) is
     the graded sign of the contraction over the SINGLE fused pair (`bondSign`; it depends only on
     the free charges, the direction of the fused leg and the parity of the fused charge:
-    `gradedSign_single_pair`) times the two fermionic fuse signs (C05's `fuseSignT`:
-    `fuseF_adjacent_sign`).
-  * `fuse_contracted_aligned_fermionic` — for an aligned fermionic pair (`TdotP.FCtx`; the
-    operands after `dropMisaligned` are such a pair: `aligned_fctx`): both fermionic fuses of the
-    contracted legs succeed, the fused operands satisfy the guard, `tensordot_fermionic` over the
-    single fused pair fails with the same (label) error as over the original pairs or succeeds
-    with the same labels, charge, symmetry, kind, rank and the SAME ELEMENT at every address of the
-    free legs' table box.
-  * `tensordot_fuse_contracted_commute_fermionic_partial` — the public route from `a`, `b`:
-    align, `fuse` (either strategy, any `expand_empty`) the contracted legs of each operand,
-    `tensordot_fermionic` over the single fused pair = `tensordot_fermionic(a, b, (xa, xb))`
-    (blockwise), same error or same labels / charge / rank / element at every address of the
-    aligned free legs' table box.
-  * `tensordot_fuse_contracted_commute_fermionic_any_mode_partial` — the same with the contraction
-    over the original pairs in mode `m1` and the contraction of the fused operands in mode `m2`
-    (each of blockwise / fused / auto): every stored entry of the fused-route result is the
-    element of the plain result at that address.
-  `_partial`: the contracted legs of each operand have to be ADJACENT AND IN INCREASING ORDER
-  (`TdotP.AdjOk`: the permutation `before ++ group ++ after` of `_fuse_core` is the identity;
-  `adjacent_consecutive`: legs `p, p+1, …, p+k-1`, at ANY position `p` of each operand — the
-  Koszul signs of moving the group / the fused leg past the free legs are part of the statement).
-  FULL STATEMENT (not proved): the same for arbitrary `xa`, `xb` (any positions, any order), where
-  `FermionicArray.fuse` first transposes by `before ++ group ++ after`.  What is missing is not a
-  sign: `fuse_signs_contraction_compatible`'s Koszul bookkeeping (`TdotP.koszul_left_one`,
-  `koszul_right_one`) already holds for an arbitrary group (the transposition sign of the fuse
-  cancels against the Koszul sign of the contraction, `KoszulP.koszul_block_move`); missing is the
-  value-level transport through the fuse's own transposition — that the fused operand
-  `fusedArrM (signAdj a [xa]) (newGroupsF …)` (built from the TRANSPOSED sign-adjusted array) and
-  the pair sum over the untransposed operands match term by term, i.e. `GradedP.pair_transport`
-  for the layout `before ++ group ++ after` instead of `free ++ group`, or equivalently
-  `fuseF a [xa] = fuseF (transposeF a perm) [consecutive group]` as arrays plus a RIGHT-operand
-  version of `tdotF_pretranspose`.
+    `gradedSign_single_pair`) times the two fermionic fuse signs (C05's `fuseSignF`, the
+    transposition sign of the fuse included: `fuseF_group_sign`).  Arbitrary groups: the
+    transposition sign of each fuse cancels against the Koszul sign of the contraction
+    (`KoszulP.koszul_block_move`).
+  * `fuseF_group_operand` — the operand of `_fuse_core` inside the fermionic fuse of one arbitrary
+    group: layout `before ++ group ++ after`, every sector multiplied by `fuseSignF`, no pending
+    signs; the fused leg sits at the consecutive positions `newG`.
+  * the special case of contracted legs ADJACENT AND IN ORDER (`TdotP.AdjOk`, `adjacent_consecutive`,
+    `adjOk_iff`): the fuse does not transpose, `fuseF_adjacent_operand`, `fuseF_adjacent_sign`,
+    `fuse_signs_contraction_compatible_adjacent`, `fuse_contracted_aligned_fermionic_adjacent`.
+  How: `gradedContract` of the fused operands = `bondSign` · (abelian contraction of the fused
+  operands) [the graded sign is constant on the pairs of one result sector, by charge conservation]
+  = `bondSign` · (abelian contraction of the two `_fuse_core` operands over the new positions)
+  [C06f's abelian theorem `bond_fuse_core`] = pair sum over the original operands twisted by the two
+  fuse signs [`TdotP.contract_transport_gen`: `GradedP.contract_transport` for an arbitrary layout]
+  = `gradedContract` of the originals [sign identity]; `tensordot_fermionic` refines `gradedContract`
+  (C03), aligning does not change it (`TdotP.gradedContract_dropMisaligned`).
+  NOT proved here: equality of the results' pruned index tables (false in general: the fused-route
+  result may store an additional all-zero sector, as in the abelian case); the concat/insert
+  strategies and the `expand_empty` flag are covered, empty contracted lists (`xa = []`) are not
+  (nothing to fuse).
 -/
 import SymmModel.Props.C06All5
 import SymmModel.Proofs.FuseCommuteFM
 import SymmModel.Proofs.FuseCommuteF8
+import SymmModel.Proofs.FuseCommuteG5
 
 namespace SymmModel.C06
 open SymmModel SymmModel.TdotP SymmModel.GradedP SymmModel.RoutesP SymmModel.AssocP SymmModel.KoszulP
@@ -100,6 +106,89 @@ theorem tensordot_fuse_contracted_commute_both_modes [AddCommMonoid R] [Mul R] [
 
 /-! ## fermionic: the signs -/
 
+/-- the consecutive positions of the group after the fuse's transposition -/
+theorem newG_def (X : Arr R) (g : List Nat) :
+    newG X g = (List.range g.length).map (fun t => bondPos X g + t) := rfl
+
+/-- **fuseF_group_sign**: the sign the fermionic fuse of ONE arbitrary group `g` applies to the
+    sector `s` of the original array (C05's `fuseSignF`): for a dual group (first leg dual)
+    `(-1)^(odd non-dual legs of g) · (-1)^(m(m-1)/2)`, `m` the number of odd charges of the group,
+    `+1` for a non-dual group — times the Koszul sign of the transposition `before ++ g ++ after`. -/
+theorem fuseF_group_sign [Zero R] [Neg R] {X : Arr R} {g : List Nat}
+    (hne : g ≠ []) (hnd : g.Nodup) (hlt : ∀ x ∈ g, x < X.ndim) (s : Sector) (hs : s.length = X.ndim) :
+    FuseP.fuseSignF X [g] s
+      = (if (X.indices.getD (g.headD 0) default).dual
+          then sgn (ketOdd X g s) * sgn (oddContracted X g s * (oddContracted X g s - 1) / 2)
+          else 1)
+        * koszul (X.parities s) (some (calcFuseGroupInfo [g] X.duals).perm) :=
+  one_fuseSignF ⟨hne, hnd, hlt⟩ s hs
+
+/-- **fuseF_group_operand**: `fuseF(a, [g])` for one arbitrary group: it is `_fuse_core` of the
+    operand `signAdj a [g]` over the consecutive positions `newG a g`; that operand has no pending
+    signs, the index tables / stored sectors of `a` re-listed along `perm = before ++ g ++ after`,
+    and at every stored address the value of `a` times `fuseSignF`. -/
+theorem fuseF_group_operand [AddMonoid R] [Mul R] [Neg R] [SignRing R] (a : Arr R) {g : List Nat}
+    (hv : a.validB = true) (hf : a.fermi = true)
+    (hne : g ≠ []) (hnd : g.Nodup) (hlt : ∀ x ∈ g, x < a.ndim) (e : Bool) :
+    a.fuseF [g] .insert e = .ok (FuseP.fusedArrM (FuseP.signAdj a [g]) [newG a g])
+    ∧ (FuseP.signAdj a [g]).phases = []
+    ∧ (FuseP.signAdj a [g]).validB = true
+    ∧ (FuseP.signAdj a [g]).indices = permuted a.indices (calcFuseGroupInfo [g] a.duals).perm
+    ∧ (FuseP.signAdj a [g]).sectors = a.sectors.map (fun s => permuted s (calcFuseGroupInfo [g] a.duals).perm)
+    ∧ ∀ s ∈ a.sectors, ∀ off, inBox (Arr.blockShapeD a.indices s) off = true →
+        (FuseP.signAdj a [g]).elem (permuted s (calcFuseGroupInfo [g] a.duals).perm)
+            (permuted off (calcFuseGroupInfo [g] a.duals).perm)
+          = Lazy.sgnI (FuseP.fuseSignF a [g] s) (a.elem s off) := by
+  have h : OneOk a g := ⟨hne, hnd, hlt⟩
+  have P := prepared_signAdj a hv hf h
+  have hfuse := (FuseP.fuseF_elemT a [g] e hv hf h.groupsOk).1
+  rw [one_newGroupsF h] at hfuse
+  exact ⟨hfuse, P.phases, (ValidP.validB_iff _).mpr (FuseP.signAdj_valid a [g] hv hf h.groupsOk),
+    P.indices, P.sectors, P.elem⟩
+
+/-- the graded sign of a contraction over one pair of legs at positions `pA`, `pB` -/
+theorem bondSign_def (sym : Sym) (dualA : Bool) (pA pB : Nat) (Ls Rs : Sector) (m : Nat) :
+    bondSign sym dualA pA pB Ls Rs m
+      = sgn (m * oddIn sym (Ls.drop pA)) * sgn (oddIn sym (Rs.take pB) * m) * (if dualA then 1 else sgn m) :=
+  rfl
+
+/-- **gradedSign_single_pair**: the graded sign (C03) of a contraction over a SINGLE pair of legs
+    (`pA` of `AF`, `pB` of `BF`) is `bondSign` of the free charges, the direction of the left leg
+    and any `m` with the parity of the contracted charge. -/
+theorem gradedSign_single_pair (AF BF : Arr R) (pA mA pB mB : Nat) (hnA : AF.ndim = pA + 1 + mA)
+    (hnB : BF.ndim = pB + 1 + mB) (hsym : AF.sym = BF.sym) (sa' sb' : Sector)
+    (hla : sa'.length = AF.ndim) (hlb : sb'.length = BF.ndim)
+    (hK : permuted sb' [pB] = permuted sa' [pA]) (m : Nat)
+    (hm : oddIn AF.sym (permuted sa' [pA]) % 2 = m % 2) :
+    gradedSign AF BF [pA] [pB] sa' sb'
+      = bondSign AF.sym (AF.indices.getD pA default).dual pA pB
+          (permuted sa' (freeAxes AF.ndim [pA])) (permuted sb' (freeAxes BF.ndim [pB])) m :=
+  gradedSign_fusedpair AF BF pA mA pB mB hnA hnB hsym sa' sb' hla hlb hK m hm
+
+/-- **fuse_signs_contraction_compatible.**  `A`, `B` any arrays of one symmetry, contracted groups
+    `xa`, `xb` (ARBITRARY non-empty lists of distinct axes) with opposite directions; `sa`, `sb`
+    sectors of full length with equal contracted charges.  Then
+      gradedSign(A, B; xa, xb)(sa, sb)
+        = bondSign(free charges of sa, sb; number of odd contracted charges)
+          · fuseSignF(A, xa)(sa) · fuseSignF(B, xb)(sb). -/
+theorem fuse_signs_contraction_compatible [Zero R] [Neg R] (A B : Arr R) {xa xb : List Nat}
+    (hneA : xa ≠ []) (hndA : xa.Nodup) (hltA : ∀ x ∈ xa, x < A.ndim)
+    (hndB : xb.Nodup) (hltB : ∀ x ∈ xb, x < B.ndim)
+    (hsym : A.sym = B.sym) (hlen : xa.length = xb.length)
+    (hdual : (xb.map (fun ax => B.indices.getD ax default)).map Index.dual
+      = (xa.map (fun ax => A.indices.getD ax default)).map (fun ix => !ix.dual))
+    (sa sb : Sector) (hla : sa.length = A.ndim) (hlb : sb.length = B.ndim)
+    (hK : permuted sb xb = permuted sa xa) :
+    gradedSign A B xa xb sa sb
+      = bondSign A.sym (A.indices.getD (xa.headD 0) default).dual (bondPos A xa) (bondPos B xb)
+          (permuted sa (freeAxes A.ndim xa)) (permuted sb (freeAxes B.ndim xb)) (oddContracted A xa sa)
+        * FuseP.fuseSignF A [xa] sa * FuseP.fuseSignF B [xb] sb :=
+  fuse_signs_compatible_gen A B ⟨hneA, hndA, hltA⟩
+    ⟨by intro e; rw [e] at hlen; exact hneA (List.eq_nil_of_length_eq_zero hlen), hndB, hltB⟩
+    hsym hlen hdual sa sb hla hlb hK
+
+/-! ### contracted legs adjacent and in order: the fuse does not transpose -/
+
 /-- consecutive legs `p, p+1, …, p+k-1` (any position) are a group of adjacent legs in order -/
 theorem adjacent_consecutive (X : Arr R) (p k : Nat) (hk : 1 ≤ k) (hpk : p + k ≤ X.ndim) :
     AdjOk X ((List.range k).map (fun j => p + j)) :=
@@ -128,9 +217,7 @@ theorem fuseF_adjacent_operand [Zero R] [Neg R] [Lazy.LawfulNeg R] (a : Arr R) {
   rw [adj_newGroupsF h] at hfuse
   exact ⟨hfuse, h1, h3, h4, h5, h9⟩
 
-/-- **fuseF_adjacent_sign**: the fermionic fuse sign of a group of adjacent legs in order: for a
-    dual group (first leg dual) `(-1)^(odd non-dual legs) · (-1)^(m(m-1)/2)`, `m` the number of odd
-    charges of the group; `+1` for a non-dual group. -/
+/-- **fuseF_adjacent_sign**: the fermionic fuse sign of a group of adjacent legs in order. -/
 theorem fuseF_adjacent_sign [Zero R] [Neg R] {X : Arr R} {g : List Nat} (h : AdjOk X g) (S : Sector) :
     FuseP.fuseSignT X [g] S
       = if (X.indices.getD (g.headD 0) default).dual
@@ -139,32 +226,8 @@ theorem fuseF_adjacent_sign [Zero R] [Neg R] {X : Arr R} {g : List Nat} (h : Adj
         else 1 :=
   adj_fuseSignT h S
 
-/-- the graded sign of a contraction over one pair of legs at positions `pA`, `pB` -/
-theorem bondSign_def (sym : Sym) (dualA : Bool) (pA pB : Nat) (Ls Rs : Sector) (m : Nat) :
-    bondSign sym dualA pA pB Ls Rs m
-      = sgn (m * oddIn sym (Ls.drop pA)) * sgn (oddIn sym (Rs.take pB) * m) * (if dualA then 1 else sgn m) :=
-  rfl
-
-/-- **gradedSign_single_pair**: the graded sign (C03) of a contraction over a SINGLE pair of legs
-    (`pA` of `AF`, `pB` of `BF`) is `bondSign` of the free charges, the direction of the left leg
-    and any `m` with the parity of the contracted charge. -/
-theorem gradedSign_single_pair (AF BF : Arr R) (pA mA pB mB : Nat) (hnA : AF.ndim = pA + 1 + mA)
-    (hnB : BF.ndim = pB + 1 + mB) (hsym : AF.sym = BF.sym) (sa' sb' : Sector)
-    (hla : sa'.length = AF.ndim) (hlb : sb'.length = BF.ndim)
-    (hK : permuted sb' [pB] = permuted sa' [pA]) (m : Nat)
-    (hm : oddIn AF.sym (permuted sa' [pA]) % 2 = m % 2) :
-    gradedSign AF BF [pA] [pB] sa' sb'
-      = bondSign AF.sym (AF.indices.getD pA default).dual pA pB
-          (permuted sa' (freeAxes AF.ndim [pA])) (permuted sb' (freeAxes BF.ndim [pB])) m :=
-  gradedSign_fusedpair AF BF pA mA pB mB hnA hnB hsym sa' sb' hla hlb hK m hm
-
-/-- **fuse_signs_contraction_compatible.**  `A`, `B` any arrays of one symmetry, contracted groups
-    `xa`, `xb` of adjacent legs in order with opposite directions; `sa`, `sb` sectors of full length
-    with equal contracted charges.  Then
-      gradedSign(A, B; xa, xb)(sa, sb)
-        = bondSign(free charges of sa, sb; number of odd contracted charges)
-          · fuseSign(A, xa)(sa) · fuseSign(B, xb)(sb). -/
-theorem fuse_signs_contraction_compatible [Zero R] [Neg R] (A B : Arr R) {xa xb : List Nat}
+/-- the sign identity for groups of adjacent legs in order (no transposition signs) -/
+theorem fuse_signs_contraction_compatible_adjacent [Zero R] [Neg R] (A B : Arr R) {xa xb : List Nat}
     (hA : AdjOk A xa) (hB : AdjOk B xb) (hsym : A.sym = B.sym) (hlen : xa.length = xb.length)
     (hdual : (xb.map (fun ax => B.indices.getD ax default)).map Index.dual
       = (xa.map (fun ax => A.indices.getD ax default)).map (fun ix => !ix.dual))
@@ -176,35 +239,79 @@ theorem fuse_signs_contraction_compatible [Zero R] [Neg R] (A B : Arr R) {xa xb 
         * FuseP.fuseSignT A [xa] sa * FuseP.fuseSignT B [xb] sb :=
   fuse_signs_compatible A B hA hB hsym hlen hdual sa sb hla hlb hK
 
-/-! ## fermionic: fuse the contracted legs, contract the single fused pair -/
-
-/-- the operands after `dropMisaligned` of a fermionic pair satisfying the weak guard (contracted
-    legs adjacent and in order) form an aligned fermionic pair -/
-theorem aligned_fctx [AddCommMonoid R] [Mul R] [Neg R] [SignRing R] (a b : Arr R) (xa xb : List Nat)
-    (ha : a.validB = true) (hb : b.validB = true) (hfa : a.fermi = true) (hfb : b.fermi = true)
-    (hadm : tdotAdmissibleCommonB a b xa xb = true) (hadjA : AdjOk a xa) (hadjB : AdjOk b xb) :
-    FCtx (dropMisaligned a b xa xb).1 (dropMisaligned a b xa xb).2 xa xb :=
-  fctx_of_dropMisaligned a b xa xb (AdmW.of ha hb hfa hfb hadm) hadjA hadjB
-
-/-- **fuse_contracted_aligned_fermionic**: for an aligned fermionic pair `A`, `B` (contracted legs
-    adjacent and in order): `fuseF(A, xa)`, `fuseF(B, xb)` succeed, the fused operands satisfy the
-    weak guard for the single pair `(bondPos A xa, bondPos B xb)`, and `tensordot_fermionic` over
-    that pair (blockwise) fails with the error of the contraction over the original pairs or
-    succeeds with the same labels, charge, symmetry, kind, rank and the same element at every
-    address `(Ls ++ Rs, oL ++ oR)` of the free legs' table box. -/
-theorem fuse_contracted_aligned_fermionic [AddCommMonoid R] [Mul R] [Neg R] [SignRing R]
+/-- aligned fermionic pair, contracted legs adjacent and in order: the fused operands are
+    `_fuse_core` of the sign-adjusted operands over the ORIGINAL axes (see
+    `fuse_contracted_aligned_fermionic` for the statement) -/
+theorem fuse_contracted_aligned_fermionic_adjacent [AddCommMonoid R] [Mul R] [Neg R] [SignRing R]
     (hz1 : ∀ x : R, 0 * x = 0) (hz2 : ∀ x : R, x * 0 = 0) {A B : Arr R} {xa xb : List Nat}
     (h : FCtx A B xa xb) (e1 e2 : Bool) :
     A.fuseF [xa] .insert e1 = .ok (FuseP.fusedArrM (FuseP.signAdj A [xa]) [xa])
     ∧ B.fuseF [xb] .insert e2 = .ok (FuseP.fusedArrM (FuseP.signAdj B [xb]) [xb])
-    ∧ AdmW (FuseP.fusedArrM (FuseP.signAdj A [xa]) [xa]) (FuseP.fusedArrM (FuseP.signAdj B [xb]) [xb])
-        [bondPos A xa] [bondPos B xb]
-    ∧ (∀ e, A.tensordotF B (.pair (xa.map Int.ofNat) (xb.map Int.ofNat)) .blockwise = .error e →
-        (FuseP.fusedArrM (FuseP.signAdj A [xa]) [xa]).tensordotF (FuseP.fusedArrM (FuseP.signAdj B [xb]) [xb])
-          (.pair [Int.ofNat (bondPos A xa)] [Int.ofNat (bondPos B xb)]) .blockwise = .error e)
     ∧ ∀ c, A.tensordotF B (.pair (xa.map Int.ofNat) (xb.map Int.ofNat)) .blockwise = .ok c →
       ∃ cf, (FuseP.fusedArrM (FuseP.signAdj A [xa]) [xa]).tensordotF
             (FuseP.fusedArrM (FuseP.signAdj B [xb]) [xb])
+            (.pair [Int.ofNat (bondPos A xa)] [Int.ofNat (bondPos B xb)]) .blockwise = .ok cf
+        ∧ cf.oddpos = c.oddpos ∧ cf.charge = c.charge
+        ∧ ∀ (Ls Rs : Sector) (oL oR shpL shpR : List Nat),
+            Arr.blockShape? (permuted A.indices (freeAxes A.ndim xa)) Ls = some shpL → inBox shpL oL = true →
+            Arr.blockShape? (permuted B.indices (freeAxes B.ndim xb)) Rs = some shpR → inBox shpR oR = true →
+            cf.elem (Ls ++ Rs) (oL ++ oR) = c.elem (Ls ++ Rs) (oL ++ oR) := by
+  obtain ⟨f1, f2, _, _, hok⟩ := bond_fuse_fermi hz1 hz2 h e1 e2
+  refine ⟨f1, f2, ?_⟩
+  intro c hc
+  obtain ⟨cf, k1, k2, k3, _, _, _, kE⟩ := hok c hc
+  exact ⟨cf, k1, k2, k3, kE⟩
+
+/-! ## fermionic: fuse the contracted legs, contract the single fused pair -/
+
+/-- what an aligned fermionic pair is -/
+theorem fctxG_iff [AddCommMonoid R] [Mul R] [Neg R] [SignRing R] (A B : Arr R) (xa xb : List Nat) :
+    FCtxG A B xa xb ↔
+      (A.validB = true ∧ B.validB = true ∧ A.fermi = true ∧ B.fermi = true ∧ A.sym = B.sym
+        ∧ contractibleCommonB A B xa xb = true ∧ xa.Nodup ∧ xb.Nodup
+        ∧ (∀ i ∈ xa, i < A.ndim) ∧ (∀ i ∈ xb, i < B.ndim))
+      ∧ xa ≠ []
+      ∧ (xa.map (fun ax => A.indices.getD ax default)).map Index.cm
+          = (xb.map (fun ax => B.indices.getD ax default)).map Index.cm
+      ∧ (xb.map (fun ax => B.indices.getD ax default)).map Index.dual
+          = (xa.map (fun ax => A.indices.getD ax default)).map (fun ix => !ix.dual)
+      ∧ ∀ K, K ∈ A.blocks.map (fun sb => xa.map (fun ax => sb.1.getD ax (0, 0))) ↔
+          K ∈ B.blocks.map (fun sb => xb.map (fun ax => sb.1.getD ax (0, 0))) :=
+  ⟨fun h => ⟨⟨h.W.va, h.W.vb, h.W.fa, h.W.fb, h.W.sym, h.W.con, h.W.nA, h.W.nB, h.W.ltA, h.W.ltB⟩,
+      h.ne, h.cm, h.dual, h.keys⟩,
+   fun h => ⟨⟨h.1.1, h.1.2.1, h.1.2.2.1, h.1.2.2.2.1, h.1.2.2.2.2.1, h.1.2.2.2.2.2.1, h.1.2.2.2.2.2.2.1,
+      h.1.2.2.2.2.2.2.2.1, h.1.2.2.2.2.2.2.2.2.1, h.1.2.2.2.2.2.2.2.2.2⟩, h.2.1, h.2.2.1, h.2.2.2.1, h.2.2.2.2⟩⟩
+
+/-- the operands after `dropMisaligned` of a fermionic pair satisfying the weak guard form an
+    aligned fermionic pair -/
+theorem aligned_fctxG [AddCommMonoid R] [Mul R] [Neg R] [SignRing R] (a b : Arr R) (xa xb : List Nat)
+    (ha : a.validB = true) (hb : b.validB = true) (hfa : a.fermi = true) (hfb : b.fermi = true)
+    (hadm : tdotAdmissibleCommonB a b xa xb = true) (hne : xa ≠ []) :
+    FCtxG (dropMisaligned a b xa xb).1 (dropMisaligned a b xa xb).2 xa xb :=
+  fctxG_of_dropMisaligned a b xa xb (AdmW.of ha hb hfa hfb hadm) hne
+
+/-- **fuse_contracted_aligned_fermionic**: for an aligned fermionic pair `A`, `B` (ARBITRARY
+    contracted legs): `fuseF(A, xa)`, `fuseF(B, xb)` succeed, the fused operands satisfy the weak
+    guard for the single pair `(bondPos A xa, bondPos B xb)` and have one leg for the contracted
+    group, and `tensordot_fermionic` over that pair (blockwise) fails with the error of the
+    contraction over the original pairs or succeeds with the same labels, charge, symmetry, kind,
+    rank and the same element at every address `(Ls ++ Rs, oL ++ oR)` of the free legs' table box. -/
+theorem fuse_contracted_aligned_fermionic [AddCommMonoid R] [Mul R] [Neg R] [SignRing R]
+    (hz1 : ∀ x : R, 0 * x = 0) (hz2 : ∀ x : R, x * 0 = 0) {A B : Arr R} {xa xb : List Nat}
+    (h : FCtxG A B xa xb) (e1 e2 : Bool) :
+    A.fuseF [xa] .insert e1 = .ok (FuseP.fusedArrM (FuseP.signAdj A [xa]) [newG A xa])
+    ∧ B.fuseF [xb] .insert e2 = .ok (FuseP.fusedArrM (FuseP.signAdj B [xb]) [newG B xb])
+    ∧ AdmW (FuseP.fusedArrM (FuseP.signAdj A [xa]) [newG A xa])
+        (FuseP.fusedArrM (FuseP.signAdj B [xb]) [newG B xb]) [bondPos A xa] [bondPos B xb]
+    ∧ (FuseP.fusedArrM (FuseP.signAdj A [xa]) [newG A xa]).ndim + xa.length = A.ndim + 1
+    ∧ (FuseP.fusedArrM (FuseP.signAdj B [xb]) [newG B xb]).ndim + xb.length = B.ndim + 1
+    ∧ (∀ e, A.tensordotF B (.pair (xa.map Int.ofNat) (xb.map Int.ofNat)) .blockwise = .error e →
+        (FuseP.fusedArrM (FuseP.signAdj A [xa]) [newG A xa]).tensordotF
+          (FuseP.fusedArrM (FuseP.signAdj B [xb]) [newG B xb])
+          (.pair [Int.ofNat (bondPos A xa)] [Int.ofNat (bondPos B xb)]) .blockwise = .error e)
+    ∧ ∀ c, A.tensordotF B (.pair (xa.map Int.ofNat) (xb.map Int.ofNat)) .blockwise = .ok c →
+      ∃ cf, (FuseP.fusedArrM (FuseP.signAdj A [xa]) [newG A xa]).tensordotF
+            (FuseP.fusedArrM (FuseP.signAdj B [xb]) [newG B xb])
             (.pair [Int.ofNat (bondPos A xa)] [Int.ofNat (bondPos B xb)]) .blockwise = .ok cf
         ∧ cf.oddpos = c.oddpos ∧ cf.charge = c.charge ∧ cf.sym = c.sym ∧ cf.fermi = c.fermi
         ∧ cf.ndim = c.ndim
@@ -212,32 +319,31 @@ theorem fuse_contracted_aligned_fermionic [AddCommMonoid R] [Mul R] [Neg R] [Sig
             Arr.blockShape? (permuted A.indices (freeAxes A.ndim xa)) Ls = some shpL → inBox shpL oL = true →
             Arr.blockShape? (permuted B.indices (freeAxes B.ndim xb)) Rs = some shpR → inBox shpR oR = true →
             cf.elem (Ls ++ Rs) (oL ++ oR) = c.elem (Ls ++ Rs) (oL ++ oR) :=
-  bond_fuse_fermi hz1 hz2 h e1 e2
+  bond_fuse_fermi_gen hz1 hz2 h e1 e2
 
-/-- the mode of the fermionic fuse does not matter for the aligned operands -/
+/-- the strategy of the fermionic fuse does not matter for the aligned operands -/
 theorem fuseF_mode_aligned [AddCommMonoid R] [Mul R] [Neg R] [SignRing R] {A B : Arr R} {xa xb : List Nat}
-    (h : FCtx A B xa xb) (fm : FuseMode) (e : Bool) :
+    (h : FCtxG A B xa xb) (fm : FuseMode) (e : Bool) :
     A.fuseF [xa] fm e = A.fuseF [xa] .insert e ∧ B.fuseF [xb] fm e = B.fuseF [xb] .insert e := by
   cases fm
   · exact ⟨rfl, rfl⟩
-  · exact ⟨C05.fuseF_concat_eq_insert A _ e h.W.va h.W.fa (FuseP.groupsOk_iff.2 h.adjA.one.groupsOk) (by simp),
-      C05.fuseF_concat_eq_insert B _ e h.W.vb h.W.fb (FuseP.groupsOk_iff.2 h.adjB.one.groupsOk) (by simp)⟩
+  · exact ⟨C05.fuseF_concat_eq_insert A _ e h.W.va h.W.fa (FuseP.groupsOk_iff.2 h.oneA.groupsOk) (by simp),
+      C05.fuseF_concat_eq_insert B _ e h.W.vb h.W.fb (FuseP.groupsOk_iff.2 h.oneB.groupsOk) (by simp)⟩
 
-/-- **tensordot_fuse_contracted_commute_fermionic_partial** (C06, first clause, FERMIONIC, public
-    operations, blockwise; contracted legs of each operand adjacent and in order — see the file
-    header for the full statement and what is missing).  `a`, `b` valid fermionic arrays (any
-    parity, pending signs, labels) satisfying the weak guard.  With `(a', b') =
-    drop_misaligned_sectors(a, b)`: `fuse(a', xa)` and `fuse(b', xb)` (strategies `fm1`, `fm2`,
-    any `expand_empty`) succeed; the fused operands have one leg for the contracted group;
-    `tensordot_fermionic` of the fused operands over the single fused pair fails with the error of
-    `tensordot_fermionic(a, b, (xa, xb))` (clashing labels) when that fails, and otherwise succeeds
-    with the same labels, charge, symmetry, kind and rank and the same element at every address of
-    the free legs' table box (tables of the aligned operands; every stored sector of the plain
-    result lies there). -/
-theorem tensordot_fuse_contracted_commute_fermionic_partial [AddCommMonoid R] [Mul R] [Neg R] [SignRing R]
+/-- **tensordot_fuse_contracted_commute_fermionic** (C06, first clause, FERMIONIC, public
+    operations, blockwise).  `a`, `b` valid fermionic arrays (any parity, pending signs, labels)
+    satisfying the weak guard; `xa`, `xb` ARBITRARY (non-empty) lists of distinct contracted axes.
+    With `(a', b') = drop_misaligned_sectors(a, b)`: `fuse(a', xa)` and `fuse(b', xb)` (strategies
+    `fm1`, `fm2`, any `expand_empty`) succeed, are valid fermionic arrays with one leg (at
+    `bondPos = min`) for the contracted group; `tensordot_fermionic` of the fused operands over the
+    single fused pair fails with the error of `tensordot_fermionic(a, b, (xa, xb))` (clashing
+    labels) when that fails, and otherwise succeeds with the same labels, charge, symmetry, kind and
+    rank and the same element at every address of the free legs' table box (tables of the aligned
+    operands; every stored sector of the plain result lies there). -/
+theorem tensordot_fuse_contracted_commute_fermionic [AddCommMonoid R] [Mul R] [Neg R] [SignRing R]
     (hz1 : ∀ x : R, 0 * x = 0) (hz2 : ∀ x : R, x * 0 = 0) (a b : Arr R) (xa xb : List Nat)
     (ha : a.validB = true) (hb : b.validB = true) (hfa : a.fermi = true) (hfb : b.fermi = true)
-    (hadm : tdotAdmissibleCommonB a b xa xb = true) (hadjA : AdjOk a xa) (hadjB : AdjOk b xb)
+    (hadm : tdotAdmissibleCommonB a b xa xb = true) (hne : xa ≠ [])
     (fm1 fm2 : FuseMode) (e1 e2 : Bool) :
     ∃ af bf, (dropMisaligned a b xa xb).1.fuseF [xa] fm1 e1 = .ok af
       ∧ (dropMisaligned a b xa xb).2.fuseF [xb] fm2 e2 = .ok bf
@@ -256,23 +362,23 @@ theorem tensordot_fuse_contracted_commute_fermionic_partial [AddCommMonoid R] [M
               inBox shpR oR = true →
               cf.elem (Ls ++ Rs) (oL ++ oR) = c.elem (Ls ++ Rs) (oL ++ oR) := by
   have W := AdmW.of ha hb hfa hfb hadm
-  have h := fctx_of_dropMisaligned a b xa xb W hadjA hadjB
-  obtain ⟨af, bf, f1, f2, W', n1, n2, herr, hok⟩ := fuse_contracted_fermi hz1 hz2 a b xa xb W hadjA hadjB e1 e2
+  have h := fctxG_of_dropMisaligned a b xa xb W hne
+  obtain ⟨af, bf, f1, f2, W', n1, n2, herr, hok⟩ := fuse_contracted_fermi_gen hz1 hz2 a b xa xb W hne e1 e2
   refine ⟨af, bf, ?_, ?_, W'.va, W'.vb, W'.fa, W'.fb, n1, n2, herr, hok⟩
   · rw [(fuseF_mode_aligned h fm1 e1).1]; exact f1
   · rw [(fuseF_mode_aligned h fm2 e2).2]; exact f2
 
-/-- **tensordot_fuse_contracted_commute_fermionic_any_mode_partial**: as
-    `tensordot_fuse_contracted_commute_fermionic_partial`, with `tensordot_fermionic(a, b, (xa, xb))`
-    in mode `m1` and the contraction of the fused operands over the single fused pair in mode `m2`
-    (each of blockwise / fused / auto): same error, or both succeed with the same labels, charge,
-    symmetry, kind and rank, and EVERY STORED ENTRY of the fused-route result is the element of the
-    plain result at that address (a stored sector the plain result lacks is an all-zero block). -/
-theorem tensordot_fuse_contracted_commute_fermionic_any_mode_partial
+/-- **tensordot_fuse_contracted_commute_fermionic_any_mode**: as
+    `tensordot_fuse_contracted_commute_fermionic`, with `tensordot_fermionic(a, b, (xa, xb))` in mode
+    `m1` and the contraction of the fused operands over the single fused pair in mode `m2` (each of
+    blockwise / fused / auto): same error, or both succeed with the same labels, charge, symmetry,
+    kind and rank, and EVERY STORED ENTRY of the fused-route result is the element of the plain
+    result at that address (a stored sector the plain result lacks is an all-zero block). -/
+theorem tensordot_fuse_contracted_commute_fermionic_any_mode
     [AddCommMonoid R] [Mul R] [Neg R] [SignRing R]
     (hz1 : ∀ x : R, 0 * x = 0) (hz2 : ∀ x : R, x * 0 = 0) (a b : Arr R) (xa xb : List Nat)
     (ha : a.validB = true) (hb : b.validB = true) (hfa : a.fermi = true) (hfb : b.fermi = true)
-    (hadm : tdotAdmissibleCommonB a b xa xb = true) (hadjA : AdjOk a xa) (hadjB : AdjOk b xb)
+    (hadm : tdotAdmissibleCommonB a b xa xb = true) (hne : xa ≠ [])
     (fm1 fm2 : FuseMode) (e1 e2 : Bool) (m1 m2 : TdotMode) :
     ∃ af bf, (dropMisaligned a b xa xb).1.fuseF [xa] fm1 e1 = .ok af
       ∧ (dropMisaligned a b xa xb).2.fuseF [xb] fm2 e2 = .ok bf
@@ -284,11 +390,16 @@ theorem tensordot_fuse_contracted_commute_fermionic_any_mode_partial
           ∧ cf.ndim = c.ndim
           ∧ ∀ K V, alookup cf.blocks K = some V → ∀ J, inBox V.shape J = true → cf.elem K J = c.elem K J := by
   have W := AdmW.of ha hb hfa hfb hadm
-  have h := fctx_of_dropMisaligned a b xa xb W hadjA hadjB
-  obtain ⟨af, bf, f1, f2, rest⟩ := fuse_contracted_fermi_modes hz1 hz2 a b xa xb W hadjA hadjB e1 e2 m1 m2
+  have h := fctxG_of_dropMisaligned a b xa xb W hne
+  obtain ⟨af, bf, f1, f2, rest⟩ := fuse_contracted_fermi_gen_modes hz1 hz2 a b xa xb W hne e1 e2 m1 m2
   refine ⟨af, bf, ?_, ?_, rest⟩
   · rw [(fuseF_mode_aligned h fm1 e1).1]; exact f1
   · rw [(fuseF_mode_aligned h fm2 e2).2]; exact f2
+
+/-- the fused leg sits at the smallest contracted axis -/
+theorem bondPos_spec (X : Arr R) (g : List Nat) (hne : g ≠ []) (hnd : g.Nodup) (hlt : ∀ x ∈ g, x < X.ndim) :
+    bondPos X g ∈ g ∧ ∀ x ∈ g, bondPos X g ≤ x :=
+  ⟨one_pos_mem ⟨hne, hnd, hlt⟩, one_pos_le ⟨hne, hnd, hlt⟩⟩
 
 /-! ### non-vacuity and sanity -/
 
@@ -300,63 +411,67 @@ def fC : Arr Int :=
                ([(0,0),(0,0),(1,0)], C03.mkB [1,1,1] 5)],
     phases := [([(1,0),(0,0),(0,0)], -1)], oddpos := [(3, false)] }
 
--- hypotheses of the fermionic theorems: odd operands with pending signs and labels, two contracted
--- legs at positions (1,2) of `gA` (a DUAL group: fuse signs at work) and (0,1) of `fC`
-example : C03.gA.validB = true ∧ fC.validB = true ∧ C03.gA.fermi = true ∧ fC.fermi = true
+-- hypotheses of the fermionic theorems: odd operands with pending signs and labels.
+-- (i) two contracted legs at positions (1,2) of `gA` (a DUAL group) and (0,1) of `fC` (adjacent, in order);
+-- (ii) legs (0,2) of `gA` (NOT adjacent) against (2,1) of `fC` (reversed order);
+-- (iii) C03's pair: legs (1,2) of `gA` against (1,0) of `gB` (reversed order)
+example : C03.gA.validB = true ∧ fC.validB = true ∧ C03.gB.validB = true
+    ∧ C03.gA.fermi = true ∧ fC.fermi = true ∧ C03.gB.fermi = true
     ∧ tdotAdmissibleCommonB C03.gA fC [1, 2] [0, 1] = true
+    ∧ tdotAdmissibleCommonB C03.gA fC [0, 2] [2, 1] = true
+    ∧ tdotAdmissibleCommonB C03.gA C03.gB [1, 2] [1, 0] = true
     ∧ (dropMisaligned C03.gA fC [1, 2] [0, 1]).1.blocks.length = 3
-    ∧ bondPos C03.gA [1, 2] = 1 ∧ bondPos fC [0, 1] = 0
+    ∧ bondPos C03.gA [1, 2] = 1 ∧ bondPos fC [0, 1] = 0 ∧ bondPos C03.gA [0, 2] = 0 ∧ bondPos fC [2, 1] = 1
+    ∧ newG C03.gA [0, 2] = [0, 1] ∧ newG fC [2, 1] = [1, 2]
     ∧ (C03.gA.indices.getD 1 default).dual = true := by decide +kernel
 
 example : AdjOk C03.gA [1, 2] := adjacent_consecutive C03.gA 1 2 (by decide) (by decide)
 example : AdjOk fC [0, 1] := adjacent_consecutive fC 0 2 (by decide) (by decide)
 
 example : FCtx (dropMisaligned C03.gA fC [1, 2] [0, 1]).1 (dropMisaligned C03.gA fC [1, 2] [0, 1]).2 [1, 2] [0, 1] :=
-  aligned_fctx C03.gA fC [1, 2] [0, 1] (by decide +kernel) (by decide +kernel) rfl rfl (by decide +kernel)
+  fctx_of_dropMisaligned C03.gA fC [1, 2] [0, 1]
+    (AdmW.of (by decide +kernel) (by decide +kernel) rfl rfl (by decide +kernel))
     (adjacent_consecutive C03.gA 1 2 (by decide) (by decide)) (adjacent_consecutive fC 0 2 (by decide) (by decide))
 
--- sanity: the route align → fermionic fuse (insert / concat) → tensordot_fermionic over the single
--- fused pair gives exactly the synchronised blocks and labels of tensordot_fermionic over the two
--- original pairs (two result sectors; `(0,0)` accumulates two signed pairs)
-example :
-    (match (dropMisaligned C03.gA fC [1, 2] [0, 1]).1.fuseF [[1, 2]] .insert false,
-           (dropMisaligned C03.gA fC [1, 2] [0, 1]).2.fuseF [[0, 1]] .concat true with
-     | .ok af, .ok bf =>
-        match af.tensordotF bf (.pair [1] [0]) .blockwise,
-              C03.gA.tensordotF fC (.pair [1, 2] [0, 1]) .blockwise with
-        | .ok cf, .ok c =>
-          cf.phaseSync.blocks.all (fun p => (alookup c.phaseSync.blocks p.1).map (·.data) == some p.2.data)
-          && c.phaseSync.blocks.all (fun p => (alookup cf.phaseSync.blocks p.1).map (·.data) == some p.2.data)
-          && cf.oddpos == c.oddpos && cf.charge == c.charge
-          && cf.blocks.length == 2 && af.ndim == 2 && bf.ndim == 2
-        | _, _ => false
-     | _, _ => false) = true := by decide +kernel
+example : FCtxG (dropMisaligned C03.gA fC [0, 2] [2, 1]).1 (dropMisaligned C03.gA fC [0, 2] [2, 1]).2 [0, 2] [2, 1] :=
+  aligned_fctxG C03.gA fC [0, 2] [2, 1] (by decide +kernel) (by decide +kernel) rfl rfl (by decide +kernel)
+    (by decide)
 
--- the same with the plain contraction in fused mode and the contraction of the fused operands in
--- auto mode: every stored non-zero block of either is a block of the other
-example :
-    (match (dropMisaligned C03.gA fC [1, 2] [0, 1]).1.fuseF [[1, 2]] .concat true,
-           (dropMisaligned C03.gA fC [1, 2] [0, 1]).2.fuseF [[0, 1]] .insert false with
-     | .ok af, .ok bf =>
-        match af.tensordotF bf (.pair [1] [0]) .auto,
-              C03.gA.tensordotF fC (.pair [1, 2] [0, 1]) .fused with
-        | .ok cf, .ok c =>
-          cf.phaseSync.blocks.all (fun p => p.2.data.all (· == 0)
-            || (alookup c.phaseSync.blocks p.1).map (·.data) == some p.2.data)
-          && c.phaseSync.blocks.all (fun p => p.2.data.all (· == 0)
-            || (alookup cf.phaseSync.blocks p.1).map (·.data) == some p.2.data)
-          && cf.oddpos == c.oddpos && cf.blocks.length != 0
-        | _, _ => false
-     | _, _ => false) = true := by decide +kernel
+/-- the route align → fermionic fuse → tensordot_fermionic over the single fused pair against
+    tensordot_fermionic over the original pairs, on concrete operands: same synchronised blocks
+    (up to all-zero blocks in fused / auto mode), same labels, same charge -/
+def routeAgrees (a b : Arr Int) (xa xb : List Nat) (fm1 fm2 : FuseMode) (m1 m2 : TdotMode) : Bool :=
+  match (dropMisaligned a b xa xb).1.fuseF [xa] fm1 false, (dropMisaligned a b xa xb).2.fuseF [xb] fm2 true with
+  | .ok af, .ok bf =>
+    match af.tensordotF bf (.pair [Int.ofNat (bondPos a xa)] [Int.ofNat (bondPos b xb)]) m2,
+          a.tensordotF b (.pair (xa.map Int.ofNat) (xb.map Int.ofNat)) m1 with
+    | .ok cf, .ok c =>
+      cf.phaseSync.blocks.all (fun p => p.2.data.all (· == 0)
+        || (alookup c.phaseSync.blocks p.1).map (·.data) == some p.2.data)
+      && c.phaseSync.blocks.all (fun p => p.2.data.all (· == 0)
+        || (alookup cf.phaseSync.blocks p.1).map (·.data) == some p.2.data)
+      && cf.oddpos == c.oddpos && cf.charge == c.charge && c.blocks.length != 0
+      && af.ndim + xa.length == a.ndim + 1 && bf.ndim + xb.length == b.ndim + 1
+    | _, _ => false
+  | _, _ => false
 
--- the sign identity on the example: all four aligned sector pairs
+-- sanity (i): adjacent groups; (ii) non-adjacent / reversed groups; (iii) reversed group on the right;
+-- insert / concat, blockwise / fused / auto
+example : routeAgrees C03.gA fC [1, 2] [0, 1] .insert .concat .blockwise .blockwise = true
+    ∧ routeAgrees C03.gA fC [1, 2] [0, 1] .concat .insert .fused .auto = true
+    ∧ routeAgrees C03.gA fC [0, 2] [2, 1] .insert .insert .blockwise .blockwise = true
+    ∧ routeAgrees C03.gA fC [0, 2] [2, 1] .concat .concat .auto .fused = true
+    ∧ routeAgrees C03.gA C03.gB [1, 2] [1, 0] .insert .concat .blockwise .blockwise = true
+    ∧ routeAgrees C03.gA C03.gB [2, 1] [0, 1] .insert .insert .blockwise .auto = true := by
+  decide +kernel
+
+-- the sign identity on the examples: all aligned sector pairs of (ii)
 example :
     ([([(1,0),(0,0),(0,0)], [(0,0),(0,0),(1,0)]), ([(0,0),(1,0),(0,0)], [(1,0),(0,0),(0,0)]),
-      ([(0,0),(0,0),(1,0)], [(0,0),(1,0),(0,0)]), ([(1,0),(1,0),(1,0)], [(1,0),(1,0),(1,0)])] :
-        List (Sector × Sector)).all (fun p =>
-      gradedSign C03.gA fC [1, 2] [0, 1] p.1 p.2
-        == bondSign .Z2 true 1 0 (permuted p.1 [0]) (permuted p.2 [2]) (oddContracted C03.gA [1, 2] p.1)
-            * FuseP.fuseSignT C03.gA [[1, 2]] p.1 * FuseP.fuseSignT fC [[0, 1]] p.2) = true := by
+      ([(0,0),(0,0),(1,0)], [(0,0),(1,0),(0,0)])] : List (Sector × Sector)).all (fun p =>
+      gradedSign C03.gA fC [0, 2] [2, 1] p.1 p.2
+        == bondSign .Z2 false 0 1 (permuted p.1 [1]) (permuted p.2 [0]) (oddContracted C03.gA [0, 2] p.1)
+            * FuseP.fuseSignF C03.gA [[0, 2]] p.1 * FuseP.fuseSignF fC [[2, 1]] p.2) = true := by
   decide +kernel
 
 end SymmModel.C06
